@@ -681,6 +681,25 @@ fn known_class(
     answer: &GitOutcome,
     gix_found: &GixFound,
 ) -> Option<&'static str> {
+    // (classes that are still open come first, so that a query which also has the inputs of a class that has been
+    // fixed since is attributed to the open one)
+    // 6. the ceiling directory itself is still inspected
+    if let (GitOutcome::NotFound, Ok((gd, ..))) = (answer, gix_found) {
+        let got = canon(gd);
+        if got.is_some()
+            && canonical_ceilings.iter().any(|ce| {
+                phys_start.starts_with(ce) && phys_start != ce && (candidate_at(ce) == got || Some(ce) == got.as_ref())
+            })
+        {
+            return Some("ceiling-directory-itself-is-searched");
+        }
+    }
+    // 4. broken gitfile: git dies, gitoxide continues
+    if let (GitOutcome::HardError(e), Ok(_)) = (answer, gix_found) {
+        if e.contains("invalid gitfile format") || e.contains("not a git repository: ") {
+            return Some("invalid-gitfile-is-skipped");
+        }
+    }
     // 1. a relative start made of plain names only (`sub`, `a/b`): once the cursor is down to one component the
     //    current directory replaces it and is popped right away, so the current directory is never inspected
     if start_arg.is_relative() && start_arg.components().all(|c| matches!(c, Component::Normal(_))) {
@@ -698,12 +717,6 @@ fn known_class(
         .any(|a| a.file_name() == Some(std::ffi::OsStr::new(".git")) && is_plainly_invalid_dot_git(a))
     {
         return Some("invalid-dot-git-on-path-skips-parent-level");
-    }
-    // 4. broken gitfile: git dies, gitoxide continues
-    if let (GitOutcome::HardError(e), Ok(_)) = (answer, gix_found) {
-        if e.contains("invalid gitfile format") || e.contains("not a git repository: ") {
-            return Some("invalid-gitfile-is-skipped");
-        }
     }
     // 5. relative start, found directory not called `.git`: the result is shortened to `../…/.git` although the
     //    directory that many levels up (minus one) is the (differently named) git directory
@@ -724,17 +737,6 @@ fn known_class(
             if meant_is_git_dir && (git_says_meant || !matches!(answer, GitOutcome::Found(_))) {
                 return Some("relative-start-non-dot-git-directory-shortened-to-dot-git");
             }
-        }
-    }
-    // 6. the ceiling directory itself is still inspected
-    if let (GitOutcome::NotFound, Ok((gd, ..))) = (answer, gix_found) {
-        let got = canon(gd);
-        if got.is_some()
-            && canonical_ceilings.iter().any(|ce| {
-                phys_start.starts_with(ce) && phys_start != ce && (candidate_at(ce) == got || Some(ce) == got.as_ref())
-            })
-        {
-            return Some("ceiling-directory-itself-is-searched");
         }
     }
     None
@@ -809,6 +811,23 @@ fn compare(ctx: &str, answer: &GitOutcome, gix_found: &GixFound) -> Cmp {
     }
 }
 
+/// signatures of C50 findings that are still open (status "known") in /verif/known_findings.json
+fn load_open_classes() -> std::collections::HashSet<String> {
+    let mut set = std::collections::HashSet::new();
+    if let Ok(txt) = std::fs::read_to_string("/verif/known_findings.json") {
+        if let Ok(v) = serde_json::from_str::<serde_json::Value>(&txt) {
+            for f in v["findings"].as_array().cloned().unwrap_or_default() {
+                if f["property"] == "C50" && f["status"] == "known" {
+                    if let Some(s) = f["signature"].as_str() {
+                        set.insert(s.to_string());
+                    }
+                }
+            }
+        }
+    }
+    set
+}
+
 pub fn main() {
     let mut ck = Check::new("C50", "exploration");
     ck.rule("layout: one case = a generated directory tree (depth <= 5; plain dirs, `.git` dirs, bare repositories named x.git or plainly, gitfiles absolute/relative/odd/broken, submodule-like .git/modules layouts, hand-written linked worktrees, a `.git` symlink, directory symlinks, incomplete candidates: missing/corrupt HEAD, missing objects/refs) plus 6 queries (start directory absolute / relative to another working directory / with `..` or `.` components / through a directory symlink, inside work trees and inside git directories; 0..3 ceiling directories: ancestors incl. the start itself, other directories, non-existent ones, with trailing slashes or spelled through a symlink). Non-trivial: a query with >= 2 repository candidates on the physical upward path or with an active ceiling (a strict ancestor of the physical start inside the layout). candidate-forms: one candidate (container: .git dir / bare dir / gitfile target / linked-worktree private dir) x every HEAD form x every missing-part form, optionally below a valid outer repository; non-trivial when the form is not the canonical one. Distinct by hash of the decoded case.");
@@ -816,7 +835,8 @@ pub fn main() {
     ck.assume("ceiling directories are given to gitoxide as absolute paths, realpath-resolved when spelled through a symlink (this is what gix_discover's own GIT_CEILING_DIRECTORIES parser does); relative ceilings (ignored by git, an API-level question in gitoxide) and `apply_environment()` (process environment) are not exercised; match_ceiling_dir_or_error=false, cross_fs=false, dot_git_only=false");
     ck.assume("bare-ness is a documented guess in gix-discover: the work tree is compared when git reports one for the start directory, and absence of a work tree is required only when git reports a bare repository whose directory is not named `.git` and has no index/commondir/core.worktree; configuration written into generated repositories is consistent with their layout (core.bare=false for .git dirs, true for bare ones, or no config); linked-worktree private directories always carry the `gitdir` back link (gitrepository-layout requires it)");
 
-    ck.sub("layout", SubCfg::new(600, 16_000).max_len(400).max_shrink(40), |t, c| {
+    let open_classes = load_open_classes();
+    ck.sub("layout", SubCfg::new(240, 16_000).max_len(400).max_shrink(40), |t, c| {
         let mut layout = gen_layout(t);
         let scratch = infra!(c, Scratch::new("c50"), "scratch");
         let root = infra!(c, std::fs::canonicalize(&scratch.path), "canonical scratch");
@@ -947,11 +967,16 @@ pub fn main() {
                     };
                     match class {
                         // keep going: the remaining queries of this layout are still worth their oracle calls
-                        Some(class) => {
+                        Some(class) if open_classes.contains(class) => {
                             c.label("query-in-known-deviation-class");
                             if known_mismatch.is_none() {
                                 known_mismatch = Some((class, msg));
                             }
+                        }
+                        // a class that has been fixed in the meantime (or none): a violation
+                        Some(class) => {
+                            c.fail_sig(class, msg);
+                            return;
                         }
                         None => {
                             c.fail_sig(&sig, msg);
@@ -973,7 +998,7 @@ pub fn main() {
     });
 
     // Every form of a single candidate: what counts as a repository must agree.
-    ck.sub("candidate-forms", SubCfg::new(600, 6_000).max_len(16).max_shrink(30), |t, c| {
+    ck.sub("candidate-forms", SubCfg::new(300, 6_000).max_len(16).max_shrink(30), |t, c| {
         let head = ALL_HEADS[t.below(ALL_HEADS.len())];
         let missing = ALL_MISSING[t.weighted(&[6, 1, 1, 1, 1])];
         let container = *t.pick(&["dot-git", "bare", "gitfile", "linked-private", "no-candidate"]);
